@@ -162,6 +162,22 @@ def rule_r2(prog, res) -> None:
                     n_rd += 1
                     res.touch(fi)
                     sz = a0.args[0] if a0.args else None
+                    # the size may be a named constant, or a parameter whose (constant) default every caller leaves alone
+                    from .common import argval, const_value
+
+                    if sz is not None and not isinstance(sz, ast.Constant):
+                        cv = None
+                        if isinstance(sz, ast.Name) and sz.id in fi.param_names():
+                            a_ = fi.node.args
+                            dmap = {q.arg: d for q, d in zip([*a_.posonlyargs, *a_.args][len([*a_.posonlyargs, *a_.args]) - len(a_.defaults):], a_.defaults)}
+                            dmap.update({q.arg: d for q, d in zip(a_.kwonlyargs, a_.kw_defaults) if d is not None})
+                            overridden = any(argval(prog, g, c2, sz.id) is not None for g in prog.funcs for c2 in calls_in(g) if fi in prog.resolve_call(g, c2).funcs())
+                            if sz.id in dmap and not overridden:
+                                cv = const_value(prog, fi, dmap[sz.id])
+                        else:
+                            cv = const_value(prog, fi, sz)
+                        if isinstance(cv, ast.Constant):
+                            sz = cv
                     if isinstance(sz, ast.Constant) and sz.value == 1:
                         res.ok("C02.R2", res.site(fi, "header read"), "the reader takes the one header byte")
                     else:
@@ -315,7 +331,15 @@ def rule_r2(prog, res) -> None:
     wr = [ev for p in symx.explore(prog, init, inline=symx.inline_private_helpers(prog, public={"to_bytes"})) if p.outcome != "raise" for ev in p.calls("write")]
     ok_hdr = bool(wr) and all(ev.expr.args and symx.calls_named(ev.expr.args[0], "to_bytes") for ev in wr)
     rd = [ev for p in symx.explore(prog, rpd, inline=pol) for ev in p.calls("read")]
-    rd_first = bool(rd) and all(ev.expr.args and isinstance(ev.expr.args[0], ast.Constant) and ev.expr.args[0].value == 1 for ev in rd)
+    from ..effects import module_const_env as _mce
+
+    def _one(e) -> bool:
+        try:
+            return ceval(e, {k: v for k, v in _mce(prog, rpd.module).items() if isinstance(v, (int, float, str))}) == 1
+        except Exception:  # noqa: BLE001
+            return False
+
+    rd_first = bool(rd) and all(ev.expr.args and _one(ev.expr.args[0]) for ev in rd)
     if ok_hdr and rd_first:
         res.ok("C02.R2", res.site(init, "header"), "one header byte (to_bytes) written at creation, one byte read back before the records")
     else:
